@@ -73,11 +73,22 @@ def concretise(show, classes, sentinel):
             e = e.replace('.__d__', '.__class__').replace('.p', '.upper')
             # plausible arguments for a call by name
             for cls, m in chosen.items():
-                if cls == 'cap':
+                if cls in ('cap', 'shadow'):      # an AST key that shadows a capability is called like the capability
                     e = e.replace(f'{m}(K)', f'{m}({cap_args(m, sentinel)})')
                 if cls == 'pure' and m in PURE_ARGS:
                     e = e.replace(f'{m}(K)', f'{m}({PURE_ARGS[m]})')
             e = e.replace('K', "'ab'")
+            # syntactic positions that are not expressions themselves (innermost first)
+            while True:
+                ms = list(re.finditer(r"(KWARG|COMPITER|COMPCOND|LAMDEF|KWLAM)<([^<>]*)>", e))
+                if not ms:
+                    break
+                m0 = ms[-1]
+                inner = m0.group(2)
+                rep = {'KWARG': f"sorted('ab', key={inner})", 'COMPITER': f"['ab' for _ in [{inner}]]",
+                       'COMPCOND': f"['ab' for _ in 'ab' if {inner}]", 'LAMDEF': f"(lambda a={inner}: 'ab')()",
+                       'KWLAM': f"sorted('ab', key=lambda _a: {inner})"}[m0.group(1)]
+                e = e[:m0.start()] + rep + e[m0.end():]
             # f-string nesting: F{...} -> an f-string whose field is the expression
             while 'F{' in e:
                 j = e.rindex('F{')
